@@ -532,6 +532,43 @@ is_destructible() const {
 }
 
 /**
+ * Returns true if a const object of the given class type may be
+ * default-initialized: the class has a user-provided default constructor, or
+ * all of its direct non-static data members have a default initializer or are
+ * themselves of such a class type (and likewise its base classes).
+ */
+static bool
+is_const_default_constructible(const CPPStructType *type) {
+  CPPInstance *constructor = type->get_default_constructor();
+  if (constructor != nullptr &&
+      (constructor->_storage_class & CPPInstance::SC_defaulted) == 0) {
+    return true;
+  }
+
+  for (const CPPStructType::Base &base : type->_derivation) {
+    CPPStructType *base_type = base._base->as_struct_type();
+    if (base_type != nullptr && !is_const_default_constructible(base_type)) {
+      return false;
+    }
+  }
+
+  for (const auto &item : type->get_scope()->_variables) {
+    CPPInstance *instance = item.second;
+    if ((instance->_storage_class & CPPInstance::SC_static) != 0 ||
+        instance->_initializer != nullptr) {
+      continue;
+    }
+    CPPStructType *member_struct = instance->_type->remove_cv()->as_struct_type();
+    if (member_struct == nullptr ||
+        !is_const_default_constructible(member_struct)) {
+      return false;
+    }
+  }
+
+  return true;
+}
+
+/**
  * Returns true if the type is default-constructible.
  */
 bool CPPStructType::
@@ -601,11 +638,14 @@ is_default_constructible(CPPVisibility min_vis) const {
       return false;
     }
 
-    if (instance->_type->is_const() &&
-        instance->_type->remove_cv()->as_struct_type() == nullptr) {
-      // A const member of non-class type without an initializer cannot be
-      // default-initialized.
-      return false;
+    if (instance->_type->is_const()) {
+      // A const member without an initializer can only be default-initialized
+      // if it is of a class type that is const-default-constructible.
+      CPPStructType *member_struct = instance->_type->remove_cv()->as_struct_type();
+      if (member_struct == nullptr ||
+          !is_const_default_constructible(member_struct)) {
+        return false;
+      }
     }
 
     if (!instance->_type->is_default_constructible() ||
